@@ -42,6 +42,15 @@ PURE = {'isinstance', 'is_completed', 'is_paused', 'len', 'str', 'debug',
 
 
 def run(ctx):
+    _run(ctx)
+    from mstatic.rules import completion
+    r6 = ctx.rule('R6', 'the completion verdict: nothing for a finished or '
+                  'paused workflow or while tasks are pending; CANCELLED '
+                  'before SUCCESS before ERROR (shared with C01.R17)', 'DT')
+    completion.check_and_complete_table(ctx, r6)
+
+
+def _run(ctx):
     prog, sd = ctx.prog, ctx.sd
     S = sd.consts
     completed = sd.pred_set('is_completed')
